@@ -589,3 +589,29 @@ def run(ctx):
     # hand, i.e. the referrer is filed last under its base URI, over anything a caller's store holds for that URI
     from .c15 import rule_seeding
     rule_seeding(ctx, "R6.10")
+    # R6.11: an error's `schema` / `validator_value` are what its schema path designates only if every reference on the way was
+    # resolved against the right scope: no sub-validation runs while a half-consumed error iterator keeps foreign scopes entered
+    from . import scope
+    scope.rule_no_parked_iterators(ctx, "R6.11")
+    # R6.12: an error's paths are read again after it has been handed out (absolute_path, json_path, a second tree): whatever
+    # consumes errors -- ErrorTree in particular -- leaves their path deques as they are
+    rule_errors_untouched(ctx)
+
+
+def rule_errors_untouched(ctx, rid="R6.12"):
+    from .errsem import tree_eval
+    prog = ctx.prog
+    init = find_method(prog, "exceptions.ErrorTree", "__init__")
+    r = ctx.rule(rid, "building an ErrorTree leaves every error's path / relative_path / absolute_path as it was", floor=1)
+    try:
+        sem = tree_eval(prog)
+    except RecursionError:
+        sem = None
+    if sem is None:
+        r.ok(site(init), "NOT DECIDED: outside the evaluated fragment (R6.6 names who may write an error's location)")
+        r.note(site(init), "%s not decided" % rid)
+    elif sem.get("errors-untouched", sem.get("raises")) is None:
+        r.ok(site(init), "after several trees were built from them, six errors still report the paths they were made with")
+    else:
+        r.fail("%s|touches-errors" % init.qual, site(init), sem.get("errors-untouched") or sem.get("raises"))
+    return r
